@@ -49,6 +49,12 @@ type cShared struct {
 	xpriv *x25519.PrivateKey
 	xpub  *x25519.PublicKey
 	enc   [][]byte // wire encodings that every task parses from the same backing arrays
+	// option structs are values callers keep in one place and pass to every call
+	optsSV  *ed25519.Options // Ed25519ctx, hedged, self-verifying, a non-default verification preset
+	optsVer *ed25519.Options // the same variant for verifiers
+	vopts   *ed25519.VerifyOptions
+	sigCtx  [][]byte // deterministic Ed25519ctx signatures under optsVer's context
+	longDST []byte   // a domain separation tag longer than 255 bytes
 }
 
 // indices into cShared.enc
@@ -113,6 +119,17 @@ func newCShared() *cShared {
 	if sh.xpub, sh.xpriv, err = x25519.GenerateKey(NewDetReader(5)); err != nil {
 		panic(err)
 	}
+	sh.vopts = &ed25519.VerifyOptions{AllowSmallOrderR: true, AllowNonCanonicalA: true}
+	sh.optsSV = &ed25519.Options{Context: "shared-ctx", AddedRandomness: true, SelfVerify: true, Verify: sh.vopts}
+	sh.optsVer = &ed25519.Options{Context: "shared-ctx", Verify: sh.vopts}
+	for i := 0; i < cNumKeys; i++ {
+		sg, err := sh.priv[i].Sign(nil, sh.msgs[i], &ed25519.Options{Context: "shared-ctx"})
+		if err != nil {
+			panic(err)
+		}
+		sh.sigCtx = append(sh.sigCtx, sg)
+	}
+	sh.longDST = bytes.Repeat([]byte("verif-long-dst/"), 20) // 300 bytes
 	sh.enc = make([][]byte, encCount)
 	must := func(b []byte, err error) []byte {
 		if err != nil {
@@ -240,17 +257,29 @@ func (sh *cShared) op(kind, i int) []byte {
 		ok, beta := ecvrf.Verify(sh.pub[k], pi, sh.msgs[k])
 		return append(append(pi, beta...), bb(ok))
 	case 8:
-		p, err := h2c.Edwards25519_XOF_ELL2_RO(sh.shake, []byte("verif-dst"), sh.msgs[k])
+		dst := []byte("verif-dst")
+		if i/cNumKeys%2 == 1 {
+			dst = sh.longDST // the over-long tag is hashed down first: with what?
+		}
+		p, err := h2c.Edwards25519_XOF_ELL2_RO(sh.shake, dst, sh.msgs[k])
 		if err != nil {
 			return []byte(err.Error())
 		}
-		return edBytes(p)
+		out := make([]byte, 40)
+		if err := h2c.ExpandMessageXOF(out, sh.shake, dst, sh.msgs[k]); err != nil {
+			return []byte(err.Error())
+		}
+		return append(edBytes(p), out...)
 	case 9:
-		s, err := sh.priv[k].Sign(NewDetReader(uint64(i)), sh.msgs[k], &ed25519.Options{AddedRandomness: true, SelfVerify: true, Context: "ctx"})
+		// signers and verifiers passing the same option structs
+		s, err := sh.priv[k].Sign(NewDetReader(uint64(i)), sh.msgs[k], sh.optsSV)
 		if err != nil {
 			return []byte(err.Error())
 		}
-		return s
+		ok1 := ed25519.VerifyWithOptions(sh.pub[k], sh.msgs[k], s, sh.optsVer)
+		ok2 := ed25519.VerifyWithOptions(sh.pub[k], sh.msgs[k], sh.sigCtx[(k+i/4%2)%cNumKeys], sh.optsVer)
+		ok3 := sh.cv.VerifyWithOptions(sh.pub[k], sh.msgs[k], sh.sigCtx[k], sh.optsVer)
+		return append(s, bb(ok1), bb(ok2), bb(ok3))
 	case 10:
 		seed := sha512.Sum512_256([]byte{'n', byte(i)})
 		return ed25519.NewKeyFromSeed(seed[:])
@@ -566,6 +595,15 @@ func init() {
 	})
 }
 
+// optsSV0 / optsVer0: what the shared option structs were built as (the Verify pointer of the twin is its own)
+func (sh *cShared) optsSV0() *ed25519.Options {
+	return &ed25519.Options{Context: "shared-ctx", AddedRandomness: true, SelfVerify: true, Verify: sh.vopts}
+}
+
+func (sh *cShared) optsVer0() *ed25519.Options {
+	return &ed25519.Options{Context: "shared-ctx", Verify: sh.vopts}
+}
+
 type failingReader struct{ left int }
 
 func (f *failingReader) Read(p []byte) (int, error) {
@@ -679,6 +717,10 @@ func runC18C(e *Env, r *core.Run) {
 	tw.Read(b)
 	if !bytes.Equal(a, b) {
 		r.Fail("shared-object-mutated", "shake-prototype", "the caller's SHAKE prototype changed state after being passed to h2c")
+	}
+	// and the option structs
+	if *sh.optsSV != *sh.optsSV0() || *sh.optsVer != *sh.optsVer0() || *sh.vopts != *cRef.vopts {
+		r.Fail("shared-object-mutated", "option-struct", "a shared Options / VerifyOptions value differs from what the caller put there")
 	}
 	// so must the wire encodings every task parsed
 	for i := range sh.enc {
